@@ -78,6 +78,29 @@ def run_case(case, swapped, pname, variant, occ=0):
             problems.append('recorddiff[0] delivered %r, spec (multiset, fields f,g) %r' % (got, want))
     except Exception as e:
         problems.append('recorddiff[0] raised %r' % (e,))
+    # record operations over WIDER tables whose shared fields come in a different order in b: a has (f, p, q, g), b has
+    # (f, q, p, g) resp. (g, q, f, p) - first and last field in place, the middle ones permuted; p and q are constant
+    a4 = [['f', 'p', 'q', 'g']] + [[r[0], u'P', u'Q', r[1]] for r in a[1:]]
+    for bh, pick in ((['f', 'q', 'p', 'g'], lambda r: [r[0], u'Q', u'P', r[1]]), (['g', 'q', 'f', 'p'], lambda r: [r[1], u'Q', r[0], u'P'])):
+        b4 = [bh] + [pick(r) for r in b[1:]]
+        for label, fn, want in (('recordcomplement', lambda: etl.recordcomplement(a4, b4, **kw), case['comp']),
+                                ('recordcomplement(strict)', lambda: etl.recordcomplement(a4, b4, strict=True, **kw), case['compstrict']),
+                                ('recorddiff[1]', lambda: etl.recorddiff(a4, b4, **kw)[1], case['comp'])):
+            try:
+                got = [tuple(r) for r in fn()]
+                ok = got[0] == ('f', 'p', 'q', 'g') and all(r[1:3] == (u'P', u'Q') for r in got[1:]) and \
+                    [list(prof.absrow((r[0], r[3]))) for r in got[1:]] == want
+            except Exception as e:
+                problems.append('%s over 4-field tables, b fields %r, raised %r' % (label, bh, e))
+                continue
+            if not ok:
+                problems.append('%s over 4-field tables (a: f,p,q,g; b: %s) delivered %r, spec rows (f, g) = %r' % (label, ','.join(bh), got, want))
+    # `strict` spelled with other falsy / truthy values
+    for sv, which in ((0, 'comp'), (None, 'comp'), (u'', 'comp'), (1, 'compstrict'), (u'yes', 'compstrict')):
+        expect('complement(strict=%r)' % (sv,), lambda: etl.complement(a, b, strict=sv, **kw), case[which])
+        expect('recordcomplement(strict=%r)' % (sv,), lambda: etl.recordcomplement(a, b_sw, strict=sv, **kw), case[which])
+        if not kw:
+            expect('hashcomplement(strict=%r)' % (sv,), lambda: etl.hashcomplement(a, b, strict=sv), case['h' + which])
     if not kw:
         expect('hashcomplement', lambda: etl.hashcomplement(a, b), case['hcomp'])
         expect('hashcomplement(strict)', lambda: etl.hashcomplement(a, b, strict=True), case['hcompstrict'])
@@ -209,7 +232,7 @@ def run(tier, seed):
     tlc.check_coverage(r, ACTIONS, 'SetOps')
     chk.add_tlc(r, 'SetOps', cfg, ACTIONS)
     cases = common.gen('SetOpsGen')
-    profiles = ['ints', 'mixed', 'text', 'compound', 'equalreps'] if full else ['ints', 'mixed', 'equalreps']
+    profiles = ['ints', 'mixed', 'text', 'compound', 'equalreps', 'collide'] if full else ['ints', 'mixed', 'equalreps', 'collide']
     check_cases(chk, cases, profiles, full)
     traces, concrete = record_traces(2500 if full else 300, seed)
     validate_traces(chk, traces, concrete, seed)
